@@ -559,17 +559,35 @@ func runC02Extra(c *Ctx) {
 					return false
 				}
 				q := qualFn(callee)
-				if q == "os.IsNotExist" {
-					return true
-				}
+				isTest := q == "os.IsNotExist"
 				if q == "errors.Is" && len(ci.Call.Args) == 2 {
 					if g, ok := unwrapLoadGlobal(ci.Call.Args[1]); ok && (g == "ErrNotExist") {
-						return true
+						isTest = true
 					}
 				}
-				return false
+				if !isTest || len(ci.Call.Args) == 0 {
+					return false
+				}
+				// the error must be that of a backend Lstat: Stat follows links (a dangling link "does not
+				// exist"), and a failed Remove/Open says nothing about what a later LOOKUP would find
+				fl := newFlow(p)
+				fl.ExpandParams = true
+				os := fl.Origins(ci.Call.Args[0])
+				if len(os) == 0 {
+					return false
+				}
+				for _, o := range os {
+					if o.Call == nil {
+						return false
+					}
+					bc := asBackendCall(o.Call)
+					if bc == nil || bc.OnFile || bc.Method != "Lstat" {
+						return false
+					}
+				}
+				return true
 			})
-			c.verdictIf(ok, P, "neg-put", key, p.instrPos(call), "only on the is-not-exist edge", "a negative entry can be stored for an error other than not-exist (e.g. permission or I/O error): later lookups would report ENOENT for an existing object")
+			c.verdictIf(ok, P, "neg-put", key, p.instrPos(call), "only on the is-not-exist edge", "a negative entry can be stored for something other than the not-exist error of a backend Lstat of the name (another error, or the error of a link-following Stat or of a failed Remove): later lookups would report ENOENT for an existing object, e.g. a dangling symbolic link")
 		}
 	}
 
